@@ -21,7 +21,7 @@ RULE = (
     "off / re-enabled by <%page>. distinct = by emitted template text; non-trivial = contains a loop using "
     "`loop` or an exception/return/break path that was actually taken (marked by the model)."
 )
-RULE += " added since: inner loops whose body reads only loop.parent.*, loop.parent is None at top level, several % except clauses on one % try, and the enable_loop matrix {constructor option on/off} x {<%page enable_loop> absent/True/False} through Template and TemplateLookup. `loop` read inside closures written in a `% for` body (anonymous block, <%call> bodies, nested defs; one and two loop levels; with and without a direct read in the loop body). `loop` read only in tag attributes (call expression, <%ns:def> / <%include> attributes, args=, filter= of <%text> / <%block>, filter arguments). iterables whose text holds colons (slices, dict display, lambda, 'a:b'). generators whose pulls are observable and one that fails on its third pull."
+RULE += " added since: inner loops whose body reads only loop.parent.*, loop.parent is None at top level, several % except clauses on one % try, and the enable_loop matrix {constructor option on/off} x {<%page enable_loop> absent/True/False} through Template and TemplateLookup. `loop` read inside closures written in a `% for` body (anonymous block, <%call> bodies, nested defs; one and two loop levels; with and without a direct read in the loop body). `loop` read only in tag attributes (call expression, <%ns:def> / <%include> attributes, args=, filter= of <%text> / <%block>, filter arguments). iterables whose text holds colons (slices, dict display, lambda, 'a:b'). generators whose pulls are observable and one that fails on its third pull. hash signs inside string literals of for / if / elif lines."
 ASSUMPTIONS = [
     "the dual Python emission and the loop-record class in checks/c03.py state the intended semantics",
     "`% else:` after `% try:` is not generated (Mako lists only except/finally as try continuations)",
@@ -170,7 +170,7 @@ class Gen:
     def cond(self, scope):
         r = self.r
         v = r.choice(scope["vars"])
-        return r.choice(["%s > 1", "%s == 2", "not %s", "%s %% 2 == 0", "%s < 3 and True", "(%s or 0) >= 0"]) % v
+        return r.choice(["%s > 1", "%s == 2", "not %s", "%s %% 2 == 0", "%s < 3 and True", "(%s or 0) >= 0", "str(%s) != '#'", "'#%%d:' %% %s == '#2:'"]) % v
 
     def g_if(self, ind, depth, scope):
         r = self.r
@@ -193,7 +193,9 @@ class Gen:
         r = self.r
         it = r.choice(["it_list", "it_tuple", "it_str", "it_empty", "it_gen()", "range(%d)" % r.randint(0, 4), "it_one",
                        # iterables whose text holds colons, brackets and a lambda (the line ends in a colon of its own)
-                       "it_side()", "it_side()", "it_fail()", "it_list[1:]", "it_tuple[::2]", "{'p': 1, 'q': 2}", "sorted(it_list, key=lambda v: -v)", "'a:b'"])
+                       "it_side()", "it_side()", "it_fail()", "it_list[1:]", "it_tuple[::2]", "{'p': 1, 'q': 2}", "sorted(it_list, key=lambda v: -v)", "'a:b'",
+                       # ... and a hash sign inside a string literal (not a comment)
+                       "'a#b'", "'#' * 2"])
         var = "x%d" % self.uid()
         use_loop = r.random() < 0.6
         target = var
@@ -201,7 +203,7 @@ class Gen:
             target = "(%s)" % var  # parenthesised target
         self.ctl("for %s in %s:" % (target, it))
         sized = not it.startswith(("it_gen", "it_side", "it_fail"))
-        sub = dict(scope, vars=scope["vars"] + ([var] if it not in ("it_str", "'a:b'", "{'p': 1, 'q': 2}") else []), inloop=True)
+        sub = dict(scope, vars=scope["vars"] + ([var] if it not in ("it_str", "'a:b'", "'a#b'", "'#' * 2", "{'p': 1, 'q': 2}") else []), inloop=True)
         if use_loop:
             self.uses_loop = True
             self.p(ind, "LS.append(LR(%s, LS[-1] if LS else None))" % it)
